@@ -185,6 +185,22 @@ func isPeerRepresentative(peer Peer) bool {
 	return peer.GetPeerPod().IsPodRepresentative()
 }
 
+// isRepresentativePeerOfNamespace determines if the peer is a representative peer that represents pods of the given namespace only,
+// though it is not in that (real) namespace: a representative peer inferred from a rule whose namespaceSelector consists of
+// the name label of the namespace only. It has the same unique key as (so it is also the) representative peer of a rule with
+// nil namespaceSelector in a policy of that namespace, whichever of the two rules was seen first.
+func isRepresentativePeerOfNamespace(peer Peer, namespace string) bool {
+	if !isPeerRepresentative(peer) {
+		return false
+	}
+	nsSelector := peer.GetPeerPod().RepresentativeNsLabelSelector
+	if nsSelector == nil || len(nsSelector.MatchExpressions) > 0 || len(nsSelector.MatchLabels) != 1 {
+		return false
+	}
+	nsName, ok := nsSelector.MatchLabels[common.K8sNsNameLabelKey]
+	return ok && nsName == namespace
+}
+
 // ruleConnsContain returns true if the given protocol and port are contained in connections allowed by rulePorts
 func (np *NetworkPolicy) ruleConnsContain(rulePorts []netv1.NetworkPolicyPort, protocol, port string, dst Peer) (bool, error) {
 	if len(rulePorts) == 0 {
@@ -239,7 +255,8 @@ func (np *NetworkPolicy) ruleSelectsPeer(rulePeers []netv1.NetworkPolicyPeer, pe
 			peerMatchesNamespaceSelector := false
 			var err error
 			if rulePeers[i].NamespaceSelector == nil {
-				peerMatchesNamespaceSelector = (np.ObjectMeta.Namespace == peer.GetPeerPod().Namespace)
+				peerMatchesNamespaceSelector = (np.ObjectMeta.Namespace == peer.GetPeerPod().Namespace) ||
+					isRepresentativePeerOfNamespace(peer, np.ObjectMeta.Namespace)
 			} else {
 				peerNamespace := peer.GetPeerNamespace()
 				var peerNsLabels map[string]string
